@@ -81,7 +81,7 @@ Section ChanQThm.
     exists a', creach cap Y (chan_init scripts) a' /\ Rel c Y [] (x_run c Y st fut) a'.
   Proof.
     induction fut as [|[q f] fut IH]; intros st a G NW R CR; [exists a; auto|]. simpl in NW |- *.
-    destruct (sim_step c Hc s Hs0 Y fut st a q f G NW R) as (a1 & Ha1 & R1).
+    destruct (sim_step c Hc s Y fut st a q f G NW R) as (a1 & Ha1 & R1).
     assert (NW1 : nowrap c (x_m (x_step c Y st q f))).
     { destruct (x_run_mono c Y (x_step c Y st q f) fut). unfold nowrap in *. lia. }
     apply (IH (x_step c Y st q f) a1); [apply good_step; assumption | exact NW | exact R1|].
@@ -134,3 +134,17 @@ Section ChanQThm.
       intros p Hp. rewrite (Ht p (Fi p Hp)). reflexivity.
   Qed.
 End ChanQThm.
+
+(* the product model runs: one participant sends 7 (push = 5 atomic steps of the queue, then the idler check), the other
+   receives it (pop = 5 steps, then notify_senders); the hypotheses of the theorems are met *)
+Example chanq_ex :
+  let c := cfg_of 2 in
+  let scripts := [[OSend 7]; [ORecv]] in
+  let fut := [(0,0);(0,0);(0,0);(1,0);(1,0);(0,0);(0,0);(0,0);(1,0);(1,0);(1,0);(1,0);(1,0);(1,0);(1,0);(1,0);(1,0);(1,0)]%nat in
+  let st := x_run c 0 (x_init c 0 scripts) fut in
+  cfg_ok c /\ nowrap c (x_m st) /\ Z.of_nat (length scripts) + 1 < W64 /\
+  t_res (c_thr (x_c st) 0%nat) = [RSent 0 7] /\ t_res (c_thr (x_c st) 1%nat) = [RRecv 0 7] /\ absq (x_m st) = [].
+Proof.
+  cbv zeta. split; [split; [vm_compute; split; discriminate | reflexivity]|].
+  vm_compute. repeat split; reflexivity.
+Qed.
